@@ -11,7 +11,7 @@ def main():
     for f in sorted(glob.glob(os.path.join(leanbuild.LEAN_SRC, "Generated", "*.lean"))):
         mods.append("Generated." + os.path.basename(f)[:-5])
     used = sorted({registry.LEAN[k] for p in registry.PROPS.values() for k in p.get("lean", [])})
-    mods += used + [registry.WITNESS_MODULE]
+    mods += used + sorted({m for v in registry.WITNESSES.values() for m, _ in v}) + ["Tools.Cone"]
     # equivalence rescue (DESIGN.md §13.7): the contract text against the committed snapshot lean/Baseline
     from . import baseline
     mods += baseline.contracts_base(leanbuild.LEAN_SRC, used) + ["Spec.Refactor"]
